@@ -19,7 +19,9 @@ import (
 
 var ethertypes = []uint16{0x0800, 0x86dd, 0x0806, 0x8100, 0x0008}
 var protos = []byte{1, 6, 17, 58, 44, 0, 2, 7}
-var fragWords = []uint16{0, 0x2000, 0x4000, 0x0001, 0x1fff, 0x2001, 0x8000}
+
+// flag bits alone, every single bit of the 13-bit fragment offset, all offset bits, offset with a flag
+var fragWords = []uint16{0, 0x2000, 0x4000, 0x8000, 0x0001, 0x0002, 0x0004, 0x0008, 0x0010, 0x0020, 0x0040, 0x0080, 0x0100, 0x0200, 0x0400, 0x0800, 0x1000, 0x1fff, 0x2001, 0x3e00}
 var cfgAddrs = []string{"1.2.3.4", "0.0.0.1", "127.255.255.255", "128.0.0.1", "255.255.255.255"}
 var cfgPorts = []uint16{1, 255, 256, 0x1234, 0x8000, 65535}
 
